@@ -16,6 +16,15 @@ Static clauses decided (necessary conditions of C10, not the behaviour itself):
     `not cache.noflush_counter and cache.modified` whose true branch calls cache.flush(); Database._exec_sql calls it
     before provider.execute; SessionCache.flush clears query_results before any statement-emitting call; the bulk
     delete clears the result cache after its statement.
+ D  a statement executed directly under `with cache.flush_disabled()` reads the database *without* the session's pending
+    changes; the function that does so must merge them itself: after the block it consults both the pending additions and
+    the pending removals of the collection (`.added` and `.removed`), as SetInstance.count does.  A read that suppresses
+    the auto-flush and uses the rows as they are answers from the state before the session's own changes.
+ E  the parameter values of a statement are computed after the auto-flush: in every function of core.py that turns program
+    values which may be session objects (the query's variables, the keyword values of get/select/exists) into SQL
+    arguments and executes the statement, the conversion (`_construct_sql_and_arguments`, `adapter(query._vars)`,
+    `adapter(avdict)`) is dominated by prepare_connection_for_query_execution().  A new object gets its auto-generated
+    primary key during the flush; converted earlier it is sent as NULL and the query misses the rows that reference it.
 """
 NOT_DECIDED = "agreement of cache-first lookups (get/exists/select by kwargs) with SQL semantics; values of counts"
 
@@ -127,6 +136,56 @@ def run(ctx):
 
     # ---------------------------------------------------------------- B
     run_count_pairing(ctx)
+    # ---------------------------------------------------------------- D
+    run_noflush_reads(ctx)
+    # ---------------------------------------------------------------- E
+    n = 0
+    for fn in repo.rule_funcs():
+        if fn.mod.name != 'pony.orm.core': continue
+        conv = [c for c in walk_no_nested(fn.node) if isinstance(c, ast.Call) and (
+                (isinstance(c.func, ast.Attribute) and c.func.attr == '_construct_sql_and_arguments') or
+                (isinstance(c.func, ast.Name) and c.func.id == 'adapter' and len(c.args) == 1 and norm(c.args[0]) in ('avdict', 'query._vars')))]
+        if not conv: continue
+        execs = [c for c in walk_no_nested(fn.node) if isinstance(c, ast.Call) and isinstance(c.func, ast.Attribute) and c.func.attr == '_exec_sql']
+        if not execs: continue                       # get_sql() only shows the text
+        g = cg.cfg(fn)
+        guards = nodes_calling(g, lambda c: isinstance(c.func, ast.Attribute) and c.func.attr == PREP)
+        for c in conv:
+            n += 1
+            sites = cfg_node_of(g, c)
+            bad = [x for x in sites if not g.dominated(x, guards)]
+            ctx.ob('C10-E.arguments-computed-after-autoflush', fn, c, not bad,
+                   '' if not bad else 'the SQL arguments are computed at line %d before the auto-flush (%s): an object created in this session and used as a '
+                   'parameter has no primary key yet, NULL is sent instead, and the query does not see rows that reference it' % (c.lineno, PREP),
+                   node=c, expected='%s() on every path before the values are converted' % PREP)
+    ctx.floor('C10-E', n, 4, 'argument conversions in executing functions')
+
+
+def run_noflush_reads(ctx):
+    repo = ctx.repo
+    blocks = sites = 0
+    for fn in repo.rule_funcs():
+        if fn.mod.name != 'pony.orm.core': continue
+        for w in walk_no_nested(fn.node):
+            if not (isinstance(w, ast.With) and any(isinstance(i.context_expr, ast.Call) and isinstance(i.context_expr.func, ast.Attribute)
+                                                     and i.context_expr.func.attr == 'flush_disabled' for i in w.items)): continue
+            blocks += 1
+            inside = set()
+            for st in w.body:
+                for x in ast.walk(st): inside.add(id(x))
+            execs = [c for st in w.body for c in ast.walk(st) if isinstance(c, ast.Call) and isinstance(c.func, ast.Attribute) and c.func.attr == '_exec_sql']
+            for c in execs:
+                sites += 1
+                outside = [a.attr for a in walk_no_nested(fn.node) if isinstance(a, ast.Attribute) and isinstance(a.ctx, ast.Load)
+                           and a.attr in ('added', 'removed') and id(a) not in inside and a.lineno > w.end_lineno]
+                ok = 'added' in outside and 'removed' in outside
+                ctx.ob('C10-D.read-without-auto-flush-merges-pending-changes', fn, c, ok,
+                       '' if ok else 'this statement runs with the auto-flush suppressed, so the database has not seen the session\'s pending changes, and the '
+                       'function does not merge them afterwards (it reads %s of .added/.removed after the block): the answer ignores objects the session '
+                       'added to or removed from the collection' % (sorted(set(outside)) or 'neither'), node=c,
+                       expected='after the block: adjust the result by both <setdata>.added and <setdata>.removed, or do not suppress the flush')
+    ctx.floor('C10-D', blocks, 8, '`with cache.flush_disabled()` blocks in core.py')
+    ctx.floor('C10-D', sites, 1, 'statements executed directly under flush_disabled')
 
 
 def setdata_vars(fn_node):
@@ -216,6 +275,10 @@ def count_known_none(g, st, var):
 
 
 MUTANTS = [
+    dict(id='C10-e1', file='pony/orm/core.py', fn='EntityMeta._find_in_db_', old="        cache.prepare_connection_for_query_execution()  # flush: a new object used as a value gets its primary key\n", new="", expect='C10-E'),
+    dict(id='C10-e2', file='pony/orm/core.py', fn='Query.delete', old="        cache.prepare_connection_for_query_execution()  # may clear cache.query_results\n        arguments = adapter(query._vars)\n", new="        arguments = adapter(query._vars)\n        cache.prepare_connection_for_query_execution()  # may clear cache.query_results\n", expect='C10-E'),
+    dict(id='C10-d1', file='pony/orm/core.py', fn='SetInstance.is_empty', old="        cursor = database._exec_sql(sql, arguments)\n", new="        with cache.flush_disabled():\n            cursor = database._exec_sql(sql, arguments)\n", expect='C10-D'),
+    dict(id='C10-d2', file='pony/orm/core.py', fn='SetInstance.count', old="        if setdata.removed: setdata.count -= len(setdata.removed)\n", new="", expect='C10-D'),
     dict(id='C10-m1', file='pony/orm/core.py', fn='Query._actual_fetch',
          old='cache.prepare_connection_for_query_execution()  # may clear cache.query_results\n', new='pass\n',
          expect='C10-A.result-cache-read'),
